@@ -1193,6 +1193,12 @@ def check(repo, rep, tier):
     r_label_recovery(repo, rep, 'R15.1')
     r_jigg(repo, rep)
     r_span_categories(repo, rep)
+    from ..lints import r_yields_fresh
+    r_yields_fresh(repo, rep, 'R15.2', [(RD, 'read_jigg_xml'), (RD, 'read_xml')],
+                   'after list(read_..(file)) the tokens of every sentence are those of the last one')
+    from ..lints import r_element_truth
+    r_element_truth(repo, rep, 'R15.2', [CT, SI, 'depccg/semantics/ccg2lambda/parse.py', RD, PX, JX],
+                    'the tree of a one-word sentence is a single terminal span: it is taken for missing, and that sentence gets no derivation / no semantics')
     r_ids(repo, rep)
     r_root_flag(repo, rep)
     n = r_ccg2lambda_vocab(repo, rep)
